@@ -59,6 +59,11 @@ func c16Child() {
 			out.Shimmed = append(out.Shimmed, filepath.Base(f))
 		}
 	}
+	if n, _ := strconv.Atoi(core.ChildArg("PROCS")); n > 0 {
+		// few Ps and many busy goroutines: a goroutine that yields between two critical sections stays off the
+		// processor for milliseconds, i.e. the windows between critical sections become longer than a signature
+		runtime.GOMAXPROCS(n)
+	}
 	vsync.Enabled.Store(true)
 	t0 := time.Now()
 	now := func() int64 { return int64(time.Since(t0)) }
@@ -142,25 +147,27 @@ func TestC16(t *testing.T) {
 	type job struct {
 		mode                 string
 		first, count, stress int
+		procs                int
 	}
 	var jobs []job
 	nSigner, sBatch := r.Pick(200, 5000), r.Pick(20, 125)
 	nE2E, eBatch := r.Pick(12, 120), r.Pick(4, 12)
 	// e2e first: they are the longest jobs
 	for f := 0; f < nE2E; f += eBatch {
-		jobs = append(jobs, job{"e2e", 500000 + f, min(eBatch, nE2E-f), 0})
+		jobs = append(jobs, job{"e2e", 500000 + f, min(eBatch, nE2E-f), 0, 0})
 	}
 	if r.Thorough() {
 		for i := 0; i < 6; i++ {
-			jobs = append(jobs, job{"e2e", 700000 + i, 1, 500})
+			jobs = append(jobs, job{"e2e", 700000 + i, 1, 500, 0})
 		}
 		for i := 0; i < 6; i++ {
-			jobs = append(jobs, job{"signer", 800000 + i, 1, 600})
+			jobs = append(jobs, job{"signer", 800000 + i, 1, 600, []int{0, 2, 1}[i%3]})
 		}
 	}
-	jobs = append(jobs, job{"witness", 0, 0, 0})
-	for f := 0; f < nSigner; f += sBatch {
-		jobs = append(jobs, job{"signer", f, min(sBatch, nSigner-f), 0})
+	jobs = append(jobs, job{"witness", 0, 0, 0, 0})
+	for f, i := 0, 0; f < nSigner; f, i = f+sBatch, i+1 {
+		// scheduler regimes: default GOMAXPROCS, 2 and 1 processors
+		jobs = append(jobs, job{"signer", f, min(sBatch, nSigner-f), 0, []int{0, 2, 1, 2}[i%4]})
 	}
 	var wg sync.WaitGroup
 	sem := make(chan struct{}, r.Pick(5, 8))
@@ -180,7 +187,7 @@ func TestC16(t *testing.T) {
 			for attempt := 0; attempt < 4; attempt++ {
 				cr = r.RunChild("TestC16", "c16", map[string]string{
 					"SEED": fmt.Sprint(r.Seed), "FIRST": fmt.Sprint(jb.first), "COUNT": fmt.Sprint(jb.count),
-					"MODE": jb.mode, "STRESS": fmt.Sprint(jb.stress), "POOL": poolDir,
+					"MODE": jb.mode, "STRESS": fmt.Sprint(jb.stress), "POOL": poolDir, "PROCS": fmt.Sprint(jb.procs),
 				}, 25*time.Minute)
 				// a listener port picked by the kit was taken by another process before heimdall bound it: heimdall
 				// logs fatally and exits(1); that is a property of the test bed, the batch is simply run again
@@ -193,7 +200,7 @@ func TestC16(t *testing.T) {
 			}
 			mu.Lock()
 			defer mu.Unlock()
-			tag := fmt.Sprintf("%s first=%d count=%d stress=%d", jb.mode, jb.first, jb.count, jb.stress)
+			tag := fmt.Sprintf("%s first=%d count=%d stress=%d gomaxprocs=%d", jb.mode, jb.first, jb.count, jb.stress, jb.procs)
 			if cr.TimedOut {
 				r.Inconclusive("child watchdog (" + tag + "), goroutine dump in " + cr.Output)
 				return
@@ -250,6 +257,9 @@ func TestC16(t *testing.T) {
 					kinds[k]++
 				}
 				r.Count(m+"_histories", 1)
+				if m == "signer" {
+					r.Count(fmt.Sprintf("signer_histories_gomaxprocs_%d", jb.procs), 1)
+				}
 				r.Count(m+"_histories_"+hr.Verdict, 1)
 				r.Count(m+"_operations", hr.Ops)
 				r.Count(m+"_token_ops", hr.TokOps+hr.CTokOps)
